@@ -62,6 +62,7 @@ type unlockReq struct {
 	Queued    bool
 	Delivered bool
 	Dup       bool
+	Lost      bool
 }
 
 type punishment struct {
@@ -357,6 +358,18 @@ func (w *World) oracleLocking(bi *BlockInfo) {
 				}
 			}
 		}
+	}
+	// C15 / C06: an unlock that was queued stays queued (maturity queue, then hand-over queue) until
+	// the execution layer is told; it never just disappears
+	for _, id := range sortedU64Keys(m.UnlockReq) {
+		r := m.UnlockReq[id]
+		if r.Dup || !r.Queued || r.Delivered || r.Lost || seenQueued[id] {
+			continue
+		}
+		r.Lost = true
+		w.Stats.OracleEvals["C15"]++
+		w.violate("C15", "unlock-lost", "lost", "height %d: unlock %d (requested at height %d, queued since) is in neither the maturity queue nor the hand-over queue and was never handed to the execution layer", b.Height, id, r.ReqHeight)
+		w.violate("C06", "owed-item-dropped", "unlock-lost", "height %d: unlock %d left the queues without being handed over", b.Height, id)
 	}
 	denoms := map[string]bool{}
 	for d := range m.Locked {
